@@ -10,7 +10,7 @@ EXTENDS Integers, Sequences, FiniteSets, TLC
 
 NOTSTARTED == 0  LINE == 1  HEADERS == 2  BODY == 3  TRAILER == 4  COMPLETE == 5
 FOLDED_CAP == 102400
-M_CONNECT == 4            \* enum htp_method_t: HEAD 1, GET 2, PUT 3, CONNECT 4 ...
+M_CONNECT == 6            \* enum htp_method_t: HEAD 1, GET 2, PUT 3, POST 4, DELETE 5, CONNECT 6 ...
 TC_IDENTITY == 2          \* enum htp_transfer_coding_t
 CE_NONE == 1              \* enum htp_content_encoding_t
 
@@ -38,7 +38,7 @@ ObsInit == [cfg |-> [autod |-> FALSE, maxtx |-> 0, hard |-> 18000, mode |-> "pro
             run |-> "", txs |-> <<>>, viol |-> {}, gsites |-> {}, pos |-> 0,
             call |-> [d |-> "none", k |-> "", len |-> 0, off |-> 0], cbs |-> 0, opened |-> FALSE,
             lastrc |-> [req |-> "none", res |-> "none"], counter |-> [req |-> 0, res |-> 0], counters_known |-> TRUE,
-            tunnel |-> [req |-> FALSE, res |-> FALSE], ntx |-> 0, zero |-> 0,
+            tunnel |-> [req |-> FALSE, res |-> FALSE], bothtunnel |-> FALSE, ntx |-> 0, zero |-> 0,
             waitconnect |-> -1, waitarmed |-> FALSE, txcorder |-> <<>>, closed |-> FALSE, faulted |-> FALSE,
             steady |-> [k |-> 0, base |-> 0, baseb |-> 0], ended |-> FALSE]
 
@@ -78,7 +78,9 @@ ObsCb(o, ev) ==
       vAfterTx == IF t.tc > 0 /\ n # "transaction_complete" THEN {V("C05:NothingAfterTxComplete", n, i)} ELSE {}
       vDead == IF t.destroyed THEN {V("C05:CallbackTxIsLive", n, i)} ELSE {}
       vSticky == IF sticky /\ sd \in {"q", "s", "t"} THEN {V("C09:NoCallbacksWhenSticky", n, i)} ELSE {}
-      vTunnel == IF (sd = "q" /\ o.tunnel.req) \/ (sd = "s" /\ o.tunnel.res) THEN {V("C16:TunnelQuiet", n, i)} ELSE {}
+      \* once a direction has reported TUNNEL no callback of that direction runs in a later DATA call (htp_connp_close
+      \* still completes the open transaction: the weaker reading, see DESIGN.md 3.2)
+      vTunnel == IF o.call.k # "close" /\ ((sd = "q" /\ o.tunnel.req) \/ (sd = "s" /\ o.tunnel.res)) THEN {V("C16:TunnelQuiet", n, i)} ELSE {}
       \* C16: while a CONNECT is waiting for its answer no request-side callback of a LATER transaction may run
       vSuspend == IF sd = "q" /\ o.waitconnect >= 0 THEN {V("C16:ConnectSuspends", n, i)} ELSE {}
       \* C06 at completion: entity length = bytes delivered; identity + no content coding => message length = entity length
@@ -102,13 +104,13 @@ ObsCb(o, ev) ==
                       !.qdata = @ \/ (n = "request_body_data" /\ ~ev.nul /\ ev.len > 0),
                       !.sdata = @ \/ (n = "response_body_data" /\ ~ev.nul /\ ev.len > 0),
                       !.connect = @ \/ (n = "request_line" /\ ev.mn = M_CONNECT),
-                      !.resseen = @ \/ (n = "response_line"),
+                      !.resseen = @ \/ (n = "response_line") \/ ev.sp > LINE,
                       !.destroyed = @ \/ (ev.act = "destroy") \/ (n = "transaction_complete" /\ o.cfg.autod /\ ev.ret = "OK"),
                       !.qstartpos = IF n = "request_start" THEN o.pos ELSE @,
                       !.sstartpos = IF n = "response_start" THEN o.pos ELSE @]
       \* a CONNECT whose request headers are done and whose response line has not been seen suspends the request side
       wc == IF n = "request_headers" /\ t1.connect /\ ~t1.resseen THEN i
-            ELSE IF n = "response_line" /\ i = o.waitconnect THEN -1 ELSE o.waitconnect
+            ELSE IF i = o.waitconnect /\ (n = "response_line" \/ ev.sp > LINE) THEN -1 ELSE o.waitconnect
       o1 == WithTx(o, i, t1)
   IN [Add(o1, vOrder \cup vProg \cup vOnce \cup vBoth \cup vAfterTx \cup vDead \cup vSticky \cup vTunnel \cup vSuspend \cup vAcc \cup vBody)
         EXCEPT !.cbs = @ + 1, !.waitconnect = wc, !.waitarmed = (@ /\ wc >= 0),
@@ -157,7 +159,8 @@ ObsRet(o, ev) ==
       zero == IF data /\ ev.rc = "DATA_OTHER" /\ ev.consumed = 0 THEN o.zero + 1 ELSE IF data THEN 0 ELSE o.zero
       vPing == IF zero >= 4 /\ o.cfg.mode = "proto" THEN {V("C09:NoPingPong", d, -1)} ELSE {}
       o1 == IF data THEN [o EXCEPT !.lastrc[d] = ev.rc, !.counter[d] = cnt,
-                                   !.tunnel[d] = @ \/ ev.rc = "TUNNEL"]
+                                   !.tunnel[d] = @ \/ ev.rc = "TUNNEL",
+                                   !.bothtunnel = @ \/ (ev.ist = "TUNNEL" /\ ev.ost = "TUNNEL")]
             ELSE [o EXCEPT !.closed = TRUE, !.counter = [req |-> ev.inc, res |-> ev.outc]]
   IN [Add(o1, vCall \cup vDoc \cup vAll \cup vLess \cup vCons \cup vCnt \cup vStop \cup vErr \cup vTun \cup vNtx \cup vBuf \cup vWait \cup vPing)
         EXCEPT !.call = [d |-> "none", k |-> "", len |-> 0, off |-> 0], !.ntx = ev.ntx, !.zero = zero,
@@ -177,9 +180,12 @@ ObsEnd(o, ev) ==
       vNtx == IF wf /\ o.cfg.n >= 0 /\ ev.ntx # o.cfg.n THEN {V("C04:CountIsN", "ntx", -1)} ELSE {}
       vOrd == IF wf /\ ~IsSorted(o.txcorder) THEN {V("C04:InArrivalOrder", "transaction_complete", -1)} ELSE {}
       vLeft == IF wf /\ o.cfg.cls # "tunnel" /\ (ev.leftq # 0 \/ ev.lefts # 0) THEN {V("C16:NoByteSkippedOrTwice", "left-unfed", -1)} ELSE {}
-      vTun == IF wf /\ o.cfg.cls = "tunnel" /\ ~(o.tunnel.req /\ o.tunnel.res) THEN {V("C16:TunnelEntered", "both", -1)} ELSE {}
-      vNoTun == IF wf /\ o.cfg.cls # "tunnel" /\ (o.tunnel.req \/ o.tunnel.res) THEN {V("C16:NoSpuriousTunnel", "tunnel", -1)} ELSE {}
-  IN [Add(o, vSan \cup vRet \cup vLive \cup vStall \cup vN \cup vNtx \cup vOrd \cup vLeft \cup vTun \cup vNoTun) EXCEPT !.ended = TRUE]
+      vTun == IF wf /\ o.cfg.cls = "tunnel" /\ ~o.bothtunnel THEN {V("C16:TunnelEntered", "both", -1)} ELSE {}
+      \* resumed parsing after a refused CONNECT / an HTTP tunnel payload: every request is parsed exactly once
+      vRes == IF wf /\ o.cfg.cls = "resume" /\ o.cfg.n >= 0 /\ (ev.ntx # o.cfg.n \/ Cardinality({o.txcorder[k] : k \in 1..Len(o.txcorder)}) # o.cfg.n)
+              THEN {V("C16:ResumeParsesEachRequestOnce", "transactions", -1)} ELSE {}
+      vNoTun == IF wf /\ o.cfg.cls # "tunnel" /\ (o.tunnel.req \/ o.tunnel.res \/ o.bothtunnel) THEN {V("C16:NoSpuriousTunnel", "tunnel", -1)} ELSE {}
+  IN [Add(o, vSan \cup vRet \cup vLive \cup vStall \cup vN \cup vNtx \cup vOrd \cup vLeft \cup vTun \cup vNoTun \cup vRes) EXCEPT !.ended = TRUE]
 
 \* C04 at the end of a well-formed run: the pipelining indicator is set iff some request was started before the
 \* response to an earlier request had begun (event positions of request_start / response_start)
